@@ -10,35 +10,53 @@ pub struct CobsOut {
     pub n: usize,
 }
 
-/// COBS-encode `msg` into `out` (no sentinel appended); returns the encoded length.
-pub fn cobs_encode_into(msg: &[u8], out: &mut [u8]) -> usize {
-    // position of the current code byte, and its running value
-    let mut code_pos = 0usize;
-    let mut code: u8 = 1;
-    let mut n = 1; // reserve the first code byte
-    let mut i = 0;
-    while i < msg.len() {
-        let x = msg[i];
+/// Incremental form of the textbook encoder (so that a harness can drive a concrete prefix and a
+/// symbolic window through separate loops).
+pub struct RefEnc<'a> {
+    pub out: &'a mut [u8],
+    pub code_pos: usize,
+    pub code: u8,
+    pub n: usize,
+}
+impl<'a> RefEnc<'a> {
+    pub fn new(out: &'a mut [u8]) -> Self {
+        // reserve the first code byte
+        RefEnc { out, code_pos: 0, code: 1, n: 1 }
+    }
+    pub fn push(&mut self, x: u8) {
         if x == 0 {
-            out[code_pos] = code;
-            code_pos = n;
-            n += 1;
-            code = 1;
+            self.out[self.code_pos] = self.code;
+            self.code_pos = self.n;
+            self.n += 1;
+            self.code = 1;
         } else {
-            out[n] = x;
-            n += 1;
-            code += 1;
-            if code == 0xFF {
-                out[code_pos] = code;
-                code_pos = n;
-                n += 1;
-                code = 1;
+            self.out[self.n] = x;
+            self.n += 1;
+            self.code += 1;
+            if self.code == 0xFF {
+                self.out[self.code_pos] = self.code;
+                self.code_pos = self.n;
+                self.n += 1;
+                self.code = 1;
             }
         }
+    }
+    /// patch the last code byte; returns the encoded length (no sentinel)
+    pub fn finish(self) -> usize {
+        self.out[self.code_pos] = self.code;
+        self.n
+    }
+}
+
+/// COBS-encode `msg` into `out` (no sentinel appended); returns the encoded length.
+pub fn cobs_encode_into(msg: &[u8], out: &mut [u8]) -> usize {
+    let mut e = RefEnc::new(out);
+    let mut i = 0;
+    while i < msg.len() {
+        e.push(msg[i]);
         i += 1;
     }
-    out[code_pos] = code;
-    n
+    e.finish()
 }
 
 /// COBS-encode `msg` (no sentinel appended).
